@@ -22,6 +22,7 @@ import vlib
 PKG = "internal/schedule"
 FILES = ["zz_verif_common_test.go", "zz_verif_c18_test.go"]
 FPKG = "internal/filtering"
+FFILES = FILES + ["zz_verif_c18_holder_test.go"]
 
 KEY = "contains-elapsed-since-midnight-on-transition-day"
 WHAT = ("Weekly.Contains measures time elapsed since local midnight instead of the wall-clock time of day: "
@@ -212,12 +213,129 @@ def go_apply(ctx, vin, tag="a", every=None):
     env = {"VERIF_IN": vin, "VERIF_OUT": vout}
     if every is not None:
         env["VERIF_C18_EVERY"] = str(every)
-    rc, out = ctx.go_test(FPKG, FILES, "^TestZZVerifC18Apply$", env=env, synctest=True)
+    rc, out = ctx.go_test(FPKG, FFILES, "^TestZZVerifC18Apply$", env=env, synctest=True)
     rows = vlib.read_ndjson(vout)
     summ = [r for r in rows if r.get("kind") == "summary"]
     if rc != 0 or not summ:
         raise vlib.Inconclusive("C18 filtering harness did not complete:\n" + out[-3000:])
     return rows, summ[0]
+
+
+# ------------------------------------------------ the schedule in effect
+BOOT = {"tz": "Local", "w": [[0, 0, 0, 0]] * 7}
+
+
+def dkey(d):
+    return json.dumps(d, sort_keys=True)
+
+
+def holder_walk(ctx, edges):
+    """One walk from the boot state that takes every edge TLC enumerated:
+    stay in a state until its rejected documents (self loops) and its installs
+    are used up, then install a state that still has untaken edges."""
+    rng = random.Random(ctx.seed * 104729 + 18)
+    adj = {}
+    for e in edges:
+        adj.setdefault(dkey(e["src"]), []).append(e)
+    for k in adj:
+        rng.shuffle(adj[k])
+        adj[k].sort(key=lambda e: e["out"] == "ok")      # rejected ones first, then the installs
+    pos = {k: 0 for k in adj}
+    cur, steps, left = dkey(BOOT), [], len(edges)
+    if cur not in adj:
+        raise vlib.Inconclusive("holder spec has no edge from the boot state")
+    while left:
+        if pos[cur] < len(adj[cur]):
+            e = adj[cur][pos[cur]]
+            pos[cur] += 1
+            left -= 1
+        else:
+            # transfer: any install towards a state with untaken edges (already taken once)
+            e = next((x for x in adj[cur] if x["out"] == "ok" and pos[dkey(x["dst"])] < len(adj[dkey(x["dst"])])), None)
+            if e is None:
+                # only a new server is in the boot state again
+                if cur != dkey(BOOT) and pos[dkey(BOOT)] < len(adj[dkey(BOOT)]):
+                    steps.append({"reset": True})
+                    cur = dkey(BOOT)
+                    continue
+                raise vlib.Inconclusive("holder walk is stuck with %d edges left" % left)
+        steps.append({"i": len([x for x in steps if not x.get("reset")]) + 1, "doc": e["doc"], "out": e["out"], "src": e["src"], "dst": e["dst"],
+                      "eff": e["eff"]})
+        cur = dkey(e["dst"])
+    return steps
+
+
+def go_holder(ctx, steps, tag="a"):
+    vin, vout = ctx.path("c18_walk_%s.ndjson" % tag), ctx.path("c18_walk_out_%s.ndjson" % tag)
+    vlib.write_ndjson(vin, steps)
+    rc, out = ctx.go_test(FPKG, FFILES, "^TestZZVerifC18Holder$", env={"VERIF_IN": vin, "VERIF_OUT": vout}, synctest=True)
+    rows = vlib.read_ndjson(vout)
+    summ = [r for r in rows if r.get("kind") == "summary"]
+    if rc != 0 or not summ:
+        raise vlib.Inconclusive("C18 holder harness did not complete:\n" + out[-3000:])
+    return rows, summ[0]
+
+
+def holder_describe(r):
+    return "%s: after %s, PUT %s answered %s (spec: %s); in effect afterwards %s, spec %s; %s" % (
+        r.get("what"), dkey(r.get("src")), dkey(r.get("doc")), "ok" if r.get("got_ok") else "error",
+        r.get("want_out"), dkey(r.get("got_dst")), dkey(r.get("want_dst")), "; ".join(r.get("eff") or [])[:200])
+
+
+def holder_trace(ctx):
+    """Direction B for the holder: random histories judged by TraceScheduleHolder."""
+    tout = ctx.path("c18_htrace.ndjson")
+    rc, out = ctx.go_test(FPKG, FFILES, "^TestZZVerifC18HolderTrace$", env={"VERIF_OUT": tout}, synctest=True)
+    rows = vlib.read_ndjson(tout)
+    if rc != 0 or len(rows) < 100:
+        raise vlib.Inconclusive("C18 holder trace driver did not complete:\n" + out[-3000:])
+    r = ctx.tlc("TraceScheduleHolder", "TraceScheduleHolder.cfg", workers=1, timeout=900,
+                extra_files=[(tout, "trace.ndjson")])
+    if not r["vectors"] or r["vectors"][-1]["n"] != len(rows):
+        raise vlib.Inconclusive("holder trace spec did not consume the trace")
+    bad = sorted(r["vectors"][-1]["bad"])
+    # corrupted line: an accepted update whose read-back differs must be rejected
+    head = [dict(x) for x in rows[:120]]
+    j = next((i for i, x in enumerate(head) if x["k"] == "put" and x["ok"] == 1 and (i + 1) not in bad
+              and any(a != [0, 0] for a in x["gw"])), None)
+    if j is None:
+        raise vlib.Inconclusive("no accepted update among the first 120 holder trace lines")
+    head[j]["gw"] = [[0, 0]] * 7
+    cpath = ctx.path("c18_htrace_corrupt.ndjson")
+    vlib.write_ndjson(cpath, head)
+    rc_ = ctx.tlc("TraceScheduleHolder", "TraceScheduleHolder.cfg", workers=1, timeout=300,
+                  extra_files=[(cpath, "trace.ndjson")])
+    if not rc_["vectors"] or (j + 1) not in rc_["vectors"][-1]["bad"]:
+        raise vlib.Inconclusive("TraceScheduleHolder accepted a corrupted line (%d)" % (j + 1))
+    ctx.cov["binding_demo_holder_trace"] = {"corrupted_line": j + 1, "field": "gw", "rejected": True}
+    return rows, bad
+
+
+def doc_of(tz, w, wn):
+    return {"tz": tz, "w": [[a[0], a[1], b[0], b[1]] for a, b in zip(w, wn)]}
+
+
+def holder_trace_repro(ctx, rows, bad):
+    """Re-run each rejected step alone: new server, the schedule observed before
+    the step, the same document; reproduced = the same observation again."""
+    out = []
+    for i in bad[:60]:
+        row = rows[i - 1]
+        prev = rows[i - 2] if i >= 2 and rows[i - 2].get("k") == "put" else None
+        walk = [{"reset": True}]
+        prevdoc = doc_of(prev["gtz"], prev["gw"], prev["gwn"]) if prev else BOOT
+        if prevdoc["tz"] != "Local":
+            walk.append({"i": 1, "doc": prevdoc, "out": "", "eff": []})
+        doc = doc_of(row["tz"], row["w"], row["wn"])
+        walk.append({"i": 2, "doc": doc, "out": "", "eff": [[p[0], p[2]] for p in row["probes"]]})
+        obs, _ = go_holder(ctx, walk, tag="t%d" % i)
+        o = next((x for x in obs if x.get("kind") == "obs" and x.get("i") == 2), None)
+        got = doc_of(row["gtz"], row["gw"], row["gwn"])
+        same = o is not None and o["ok"] == row["ok"] and o["get"] == got and not o.get("eff")
+        rec = {"what": "holder-trace", "trace_line": i, "src": prevdoc, "doc": doc, "got_ok": bool(row["ok"]),
+               "got_dst": got, "probes": row["probes"], "want_out": "see TraceScheduleHolder", "want_dst": None}
+        out.append((rec, same))
+    return out
 
 
 def scan_zones(ctx):
@@ -356,6 +474,31 @@ def run(ctx):
             known_apply += 1
         ctx.disagreement(k, r, describe(r))
 
+    # ---- 3b. the schedule in effect under a history of updates (ScheduleHolder.tla)
+    hgen = ctx.tlc("ScheduleHolder", "ScheduleHolder.gen.cfg", workers=4, timeout=600)
+    edges = [v for v in hgen["vectors"] if v.get("k") == "edge"]
+    n_rej = sum(1 for e in edges if e["out"] == "rejected")
+    if len(edges) < 1000 or n_rej < 500 or n_rej == len(edges):
+        raise vlib.Inconclusive("vacuous: holder spec emitted %d edges, %d rejected" % (len(edges), n_rej))
+    walk = holder_walk(ctx, edges)
+    hrows, hsumm = go_holder(ctx, walk)
+    if hsumm["steps"] != len([x for x in walk if not x.get("reset")]) or any(r.get("kind") == "skip" for r in hrows):
+        raise vlib.Inconclusive("holder walk: %s of %d steps, skips %s" % (
+            hsumm["steps"], len(walk), [r for r in hrows if r.get("kind") == "skip"][:2]))
+    for r in hrows:
+        if r.get("kind") == "bad":
+            ctx.disagreement(None, r, holder_describe(r))
+    htrows, htbad = holder_trace(ctx)
+    hunrepro = 0
+    for rec, same in holder_trace_repro(ctx, htrows, htbad):
+        if not same:
+            hunrepro += 1
+            ctx.notes.append("holder trace line %d not reproduced in isolation" % rec["trace_line"])
+            continue
+        ctx.disagreement(None, rec, holder_describe(rec))
+    if hunrepro > 3:
+        raise vlib.Inconclusive("%d rejected holder trace lines did not reproduce" % hunrepro)
+
     # ---- 4. direction B
     trows, tbad, tmism = trace_validate(ctx)
     if len(tmism) > 0:
@@ -403,8 +546,11 @@ def run(ctx):
         {"trace_line": trows[0]},
     ]
     cov = {
-        "traces_validated_against_impl": summ["lines"] + summ["sers"] + asumm["evals"] + len(trows),
-        "evaluations": summ["evals"] + summ["sers"] + asumm["evals"] + len(trows),
+        "traces_validated_against_impl": summ["lines"] + summ["sers"] + asumm["evals"] + len(trows) + 1 + len(htrows),
+        "evaluations": summ["evals"] + summ["sers"] + asumm["evals"] + len(trows) + hsumm["steps"] + len(htrows),
+        "holder_edges": len(edges), "holder_edges_rejected": n_rej, "holder_walk_steps": hsumm["steps"],
+        "holder_walk_resyncs": hsumm["resyncs"], "holder_trace_lines": len(htrows),
+        "holder_trace_lines_rejected": len(htbad),
         "distinct_nontrivial": nontriv,
         "rule": "one evaluation = one (zone, schedule, instant) row of a TLC verdict table replayed into the real "
                 "Weekly.Contains (or through DNSFilter.ApplyAdditionalFiltering at that virtual time), one "
@@ -426,6 +572,7 @@ def run(ctx):
         "flaky": sum(1 for r in rows + arows if r.get("kind") == "flaky"),
         "exhaustive": not ctx.quick,
         "binding_demo": {"trace": ctx.cov.get("binding_demo_trace"),
+                         "holder_trace": ctx.cov.get("binding_demo_holder_trace"),
                          "mutations": "see notes/C18.md (10 code mutations, all caught)"},
         "samples": samples, "notes": ctx.notes,
     }
@@ -482,6 +629,30 @@ def trace_record(row, i, hist=None):
 
 def replay(ctx, path):
     rec = json.load(open(path))["record"]
+    if str(rec.get("what", "")).startswith("holder"):
+        walk = [{"reset": True}]
+        if rec["src"]["tz"] != "Local":
+            walk.append({"i": 1, "doc": rec["src"], "out": "", "eff": []})
+        if rec.get("want_dst") is not None:
+            walk.append({"i": 2, "doc": rec["doc"], "out": rec["want_out"], "src": rec["src"], "dst": rec["want_dst"],
+                         "eff": rec.get("probes") or []})
+        else:
+            walk.append({"i": 2, "doc": rec["doc"], "out": "", "eff": [[p[0], p[2]] for p in rec.get("probes") or []]})
+        rows, _ = go_holder(ctx, walk, tag="r")
+        bad = [r for r in rows if r.get("kind") == "bad"]
+        obs = next((r for r in rows if r.get("kind") == "obs" and r.get("i") == 2), {})
+        if rec.get("want_dst") is None:
+            same = obs.get("ok") == int(rec["got_ok"]) and obs.get("get") == rec["got_dst"] and not obs.get("eff")
+            print(json.dumps({"in_effect_before": rec["src"], "put": rec["doc"],
+                              "recorded": {"ok": rec["got_ok"], "in_effect_after": rec["got_dst"]},
+                              "observed": {"ok": bool(obs.get("ok")), "in_effect_after": obs.get("get")},
+                              "same_as_recorded": same}, indent=1))
+            return 1 if same else 0
+        print(json.dumps({"in_effect_before": rec["src"], "put": rec["doc"],
+                          "expected": {"reply": rec["want_out"], "in_effect_after": rec["want_dst"]},
+                          "observed": {"ok": bool(obs.get("ok")), "in_effect_after": obs.get("get"),
+                                       "probe_disagreements": [b.get("eff") for b in bad]}}, indent=1))
+        return 1 if bad else 0
     if "pt" in rec:
         vec = {"k": "eval", "c": rec.get("c", "replay"), "zone": rec["zone"], "shape": rec.get("shape", "replay"),
                "w": rec["w"], "pts": [rec["pt"]]}
